@@ -11,32 +11,95 @@ open Echse.Instant Echse.Spec.Cal
 
 /-! ### 1. `diff` -/
 
-/-- `diff` is the difference of the points in time (milliseconds). -/
-theorem diff_spec (a b : Inst) (ha : Normal a) (hb : Normal b) (ra : InRange a) (rb : InRange b) :
-    diff a b = absMs a - absMs b := by
-  obtain ⟨⟨a1, a2, -, -⟩, a5, a6, a7, a8⟩ := ha
-  obtain ⟨⟨b1, b2, -, -⟩, b5, b6, b7, b8⟩ := hb
-  rw [diff_general a b ra rb a1 a2 b1 b2 _ rfl (by omega)]
-  simp only [absMs, msPerDay]
+/-- the point in time (milliseconds) at which that begins what an instant denotes: a millisecond is itself, a
+second as such (`ms = allSec`) begins with its millisecond 0, a day as such (`H = allDay`) at its midnight -/
+def startMs (i : Inst) : Int :=
+  if i.H = allDay then days i.y i.m i.d * msPerDay
+  else if i.ms = allSec then absSec i * 1000
+  else absMs i
+
+/-- a normal instant of any of the three kinds; the fields a day as such does not use, M and S, are zero (`diff`
+subtracts them as they are; its `ms` may be anything) -/
+def NormalAny (i : Inst) : Prop := Normal i ∨ NormalSec i ∨ (NormalDay i ∧ i.M = 0 ∧ i.S = 0)
+
+instance (i : Inst) : Decidable (NormalAny i) := by unfold NormalAny; infer_instance
+
+theorem startMs_ms (i : Inst) (h : Normal i) : startMs i = absMs i := by
+  obtain ⟨-, a5, -, -, a8⟩ := h
+  have h1 : ¬ i.H = allDay := by unfold allDay; omega
+  have h2 : ¬ i.ms = allSec := by unfold allSec; omega
+  simp [startMs, h1, h2]
+
+theorem startMs_sec (i : Inst) (h : NormalSec i) : startMs i = absSec i * 1000 := by
+  obtain ⟨-, a5, -, -, a8⟩ := h
+  have h1 : ¬ i.H = allDay := by unfold allDay; omega
+  simp [startMs, h1, a8]
+
+theorem startMs_day (i : Inst) (h : NormalDay i) : startMs i = days i.y i.m i.d * 86400000 := by
+  simp [startMs, h.2, msPerDay]
+
+/-- the time of day of `startMs`, in the terms of `diff` -/
+theorem startMs_eq (i : Inst) (h : NormalAny i) :
+    startMs i = days i.y i.m i.d * 86400000 + ((hourOf i * 60 + (i.M : Int)) * 60 + (i.S : Int)) * 1000 + msecOf i ∧
+    0 ≤ ((hourOf i * 60 + (i.M : Int)) * 60 + (i.S : Int)) * 1000 + msecOf i ∧
+    ((hourOf i * 60 + (i.M : Int)) * 60 + (i.S : Int)) * 1000 + msecOf i < 86400000 := by
+  rcases h with h | h | ⟨h, hM, hS⟩
+  · rw [startMs_ms i h]
+    obtain ⟨-, a5, a6, a7, a8⟩ := h
+    rw [hourOf_timed i a5, msecOf_ms i a5 a8]
+    refine ⟨by simp only [absMs, msPerDay], by omega, by omega⟩
+  · rw [startMs_sec i h]
+    obtain ⟨-, a5, a6, a7, a8⟩ := h
+    rw [hourOf_timed i a5, msecOf_sec i a8]
+    refine ⟨by simp only [absSec]; omega, by omega, by omega⟩
+  · rw [startMs_day i h, hourOf_day i h.2, msecOf_day i h.2, hM, hS]
+    refine ⟨?_, ?_, ?_⟩ <;> omega
+
+/-- `diff` is the difference of the points in time (milliseconds) of ANY two normal instants, be they of one
+kind or of two: the markers `allDay = 255` and `allSec = 1023` are no hours and no milliseconds. -/
+theorem diff_spec (a b : Inst) (ha : NormalAny a) (hb : NormalAny b) (ra : InRange a) (rb : InRange b) :
+    diff a b = startMs a - startMs b := by
+  obtain ⟨ea, la, ua⟩ := startMs_eq a ha
+  obtain ⟨eb, lb, ub⟩ := startMs_eq b hb
+  have va : ValidDate a := by rcases ha with h | h | h; exact h.1; exact h.1; exact h.1.1
+  have vb : ValidDate b := by rcases hb with h | h | h; exact h.1; exact h.1; exact h.1.1
+  rw [diff_general a b ra rb va.1 va.2.1 vb.1 vb.2.1 _ rfl (by omega), ea, eb]
   omega
+
+/-- millisecond resolution on both sides -/
+theorem diff_spec_ms (a b : Inst) (ha : Normal a) (hb : Normal b) (ra : InRange a) (rb : InRange b) :
+    diff a b = absMs a - absMs b := by
+  rw [diff_spec a b (Or.inl ha) (Or.inl hb) ra rb, startMs_ms a ha, startMs_ms b hb]
 
 /-- second resolution -/
 theorem diff_spec_sec (a b : Inst) (ha : NormalSec a) (hb : NormalSec b) (ra : InRange a) (rb : InRange b) :
     diff a b = (absSec a - absSec b) * 1000 := by
-  obtain ⟨⟨a1, a2, -, -⟩, a5, a6, a7, a8⟩ := ha
-  obtain ⟨⟨b1, b2, -, -⟩, b5, b6, b7, b8⟩ := hb
-  rw [diff_general a b ra rb a1 a2 b1 b2 _ rfl (by omega)]
-  simp only [absSec]
+  rw [diff_spec a b (Or.inr (Or.inl ha)) (Or.inr (Or.inl hb)) ra rb, startMs_sec a ha, startMs_sec b hb]
   omega
 
-/-- all-day instants (the unused fields M, S, ms agree, e.g. are all zero) -/
+/-- all-day instants (the unused fields M and S agree, e.g. are all zero; `ms` is not looked at) -/
 theorem diff_spec_day (a b : Inst) (ha : NormalDay a) (hb : NormalDay b) (ra : InRange a) (rb : InRange b)
-    (hM : a.M = b.M) (hS : a.S = b.S) (hms : a.ms = b.ms) :
+    (hM : a.M = b.M) (hS : a.S = b.S) :
     diff a b = (days a.y a.m a.d - days b.y b.m b.d) * 86400000 := by
   obtain ⟨⟨a1, a2, -, -⟩, a5⟩ := ha
   obtain ⟨⟨b1, b2, -, -⟩, b5⟩ := hb
-  rw [diff_general a b ra rb a1 a2 b1 b2 _ rfl (by omega)]
+  rw [diff_general a b ra rb a1 a2 b1 b2 _ rfl
+    (by rw [hourOf_day a a5, hourOf_day b b5, msecOf_day a a5, msecOf_day b b5]; omega)]
+  rw [hourOf_day a a5, hourOf_day b b5, msecOf_day a a5, msecOf_day b b5]
   omega
+
+/-- a second as such against a millisecond in it, a day as such against a second in it: never negative, and
+less than the second, the day -/
+theorem diff_sec_ms (a b : Inst) (ha : NormalSec a) (hb : Normal b) (ra : InRange a) (rb : InRange b)
+    (h : absSec a = absMs b / 1000) : diff b a = absMs b % 1000 := by
+  rw [diff_spec b a (Or.inl hb) (Or.inr (Or.inl ha)) rb ra, startMs_ms b hb, startMs_sec a ha, h]
+  omega
+
+theorem diff_day_sec (a b : Inst) (ha : NormalDay a) (hM : a.M = 0) (hS : a.S = 0) (hb : NormalSec b)
+    (ra : InRange a) (rb : InRange b) (h : days a.y a.m a.d = days b.y b.m b.d) :
+    diff b a = (((b.H : Int) * 60 + b.M) * 60 + b.S) * 1000 := by
+  rw [diff_spec b a (Or.inr (Or.inl hb)) (Or.inr (Or.inr ⟨ha, hM, hS⟩)) rb ra, startMs_sec b hb, startMs_day a ha, h]
+  simp only [absSec]; omega
 
 /-! ### 2. `add` -/
 
@@ -89,7 +152,7 @@ theorem absMs_injective (a b : Inst) (ha : Normal a) (hb : Normal b) (h : absMs 
 
 theorem add_diff (a b : Inst) (ha : Normal a) (hb : Normal b) (ra : InRange a) (rb : InRange b) :
     add b (diff a b) = a := by
-  have hd := diff_spec a b ha hb ra rb
+  have hd := diff_spec_ms a b ha hb ra rb
   obtain ⟨l, u⟩ := absMs_bounds a ha ra
   obtain ⟨n, -, e⟩ := add_spec b (diff a b) hb rb (by rw [hd]; omega) (by rw [hd]; omega)
   exact absMs_inj _ _ n ha (by rw [e, hd]; omega)
@@ -98,7 +161,7 @@ theorem diff_add (b : Inst) (δ : Int) (hb : Normal b) (rb : InRange b)
     (hlo : absMs ⟨1901,1,1,0,0,0,0⟩ ≤ absMs b + δ) (hhi : absMs b + δ < absMs ⟨2100,1,1,0,0,0,0⟩) :
     diff (add b δ) b = δ := by
   obtain ⟨n, r, e⟩ := add_spec b δ hb rb hlo hhi
-  rw [diff_spec _ _ n hb r rb, e]; omega
+  rw [diff_spec_ms _ _ n hb r rb, e]; omega
 
 /-- the same for second resolution -/
 theorem add_diff_sec (a b : Inst) (ha : NormalSec a) (hb : NormalSec b) (ra : InRange a) (rb : InRange b) :
